@@ -51,6 +51,19 @@ func (k Keeper) CheckAndLiquidateUnhealthyPosition(ctx sdk.Context, mtp *types.M
 
 	k.SetPool(ctx, pool)
 
+	// interest and funding settlement changed custody and the amm pool balance: refresh the accounted pool
+	if k.hooks != nil {
+		updatedAmmPool, err := k.GetAmmPool(ctx, mtp.AmmPoolId)
+		if err != nil {
+			return err
+		}
+		params := k.GetParams(ctx)
+		err = k.hooks.AfterPerpetualPositionModified(ctx, updatedAmmPool, pool, mtp.GetAccountAddress(), params.EnableTakeProfitCustodyLiabilities)
+		if err != nil {
+			return err
+		}
+	}
+
 	// check MTP health against threshold
 	safetyFactor := k.GetSafetyFactor(ctx)
 
